@@ -368,7 +368,7 @@ type e2eCase struct {
 	nrefs int
 }
 
-var e2eNames = []string{"a", "b", "dir", "file.txt", "x y", "ü", "Makefile", "src", "README", "a.b", "z-1", "sp ace", "q\"uote", "back\\slash", "tab\tname", "star*", "[9]", "semi;colon", "caf\xe9.txt", "a\x01b", "del\x7f", "{}", "{{cc.name}}", "x}", "at@{1}", "co:lon", "new\nline", "-dash", "--names=none", "dir.txt", "src~", "README ", "100%", "a%\"b", "%s%d%v", "50%!"}
+var e2eNames = []string{"a", "b", "dir", "file.txt", "x y", "ü", "Makefile", "src", "README", "a.b", "z-1", "sp ace", "q\"uote", "back\\slash", "tab\tname", "star*", "[9]", "semi;colon", "caf\xe9.txt", "a\x01b", "del\x7f", "{}", "{{cc.name}}", "x}", "at@{1}", "co:lon", "new\nline", "-dash", "--names=none", "dir.txt", "src~", "README ", "100%", "a%\"b", "%s%d%v", "50%!", "a\\u0026b", "x\\\\u003cy", "R&D <x>"}
 
 // a "git bomb" that is deep rather than wide: 35-45 levels of trees, each holding the level below twice,
 // over a leaf directory; with full names every cited object deep inside has to be described. The scan and
